@@ -149,6 +149,16 @@ class Server:
         if p.returncode != 0:
             raise E2EError("set_roles failed: %s" % p.stdout.decode("utf-8", "replace")[-800:])
 
+    def seed(self, events):
+        """events stored through the repository's own storage API, in a process of its own"""
+        path = os.path.join(self.dir, "seed.json")
+        with open(path, "w") as fp:
+            json.dump(events, fp)
+        p = subprocess.run([PY, "-m", "vf.e2e_launch", self.conf, "seed", path], cwd=self.dir,
+                           env=self._env(), stdout=subprocess.PIPE, stderr=subprocess.STDOUT, timeout=120)
+        if p.returncode != 0:
+            raise E2EError("seed failed: %s" % p.stdout.decode("utf-8", "replace")[-800:])
+
     def start(self, wait=40.0):
         e = self._env()
         self.generation += 1
